@@ -1079,6 +1079,18 @@ def hamming_dist_table(F, rep, rule="C15.2"):
             missing = [q for q in range(L) if covered.get(q, 0) == 0]
             twice = [q for q in range(L) if covered.get(q, 0) > 1]
             beyond = [q for q in covered if q >= L]
+            # positions that WERE read from both operands, but compared by a construct this table does not follow (it knows the block helper and
+            # per-base comparisons): undecided here — the exact lemmas on symbolic backing strings decide them.  Positions never read are exact.
+            read = {"self": set(), "other": set()}
+            for (w_, first_, orient_) in h.obs.get("block", []):
+                if isinstance(first_, int) and w_ in read:
+                    read[w_].update(range(first_, first_ + 32))
+            for (w_, first_) in h.view_reads:
+                if isinstance(first_, int) and w_ in read:
+                    read[w_].add(first_)
+            if missing and all(q in read["self"] and q in read["other"] for q in missing):
+                inc.append("length %d: positions %s%s are read from both operands but compared in a way this table does not follow" % (L, missing[:4], "…" if len(missing) > 4 else ""))
+                continue
             if missing:
                 problems.append("slices of length %d (is_rc %s/%s): positions %s%s are never compared — differences there are not counted" % (
                     L, rcs[0], rcs[1], missing[:6], "…" if len(missing) > 6 else ""))
